@@ -8,7 +8,7 @@ def run(tier, seed):
     v.assumptions = ["visibility half judged on this machine's memory model (x86-64 TSO), as the property states",
                      "group / semaphore / once hand-off edges are decided by C07 / C08 / C09's specs and drivers",
                      "TLC bounds as C01/C04"]
-    run_models(v, PROP, ["Q1", "Q2b"] if tier == "quick" else ["Q1", "Q2b", "Q2q", "Q1p"])
+    run_models(v, PROP, ["Q1w", "Q2w"] if tier == "quick" else ["Q1", "Q1w", "Q2b", "Q2w", "Q2q", "Q1p"])
     run_mutants(v, PROP, [("Q1", "sync_does_not_wait")])
     dqstate_conformance(v, PROP)
     n = 1 if tier == "quick" else 8
